@@ -258,7 +258,7 @@ def conf_char_list():
 
 def long_constants():
     """valid constants much longer than any fixed look-ahead a lexer might use"""
-    for n in (30, 63, 64, 65, 66, 100, 300):
+    for n in (30, 63, 64, 65, 66, 100, 300, 1023, 1024, 4095, 4096, 4097, 8192, 65535, 65536, 70001):
         yield "0b" + "10" * (n // 2) + "1", "int:bin"
         yield "0b" + "1" * n + "ULL", "int:bin"
         yield "1" + "0" * n, "int:dec"
@@ -267,11 +267,17 @@ def long_constants():
         yield "3." + "14159265" * (n // 8 + 1) + "L", "float:frac"
         yield "0." + "0" * n + "89", "float:frac"
         yield "1" + "0" * n + "e+10", "float:exp"
+        yield "1" + "0" * n + ".5", "float:frac"
+        yield "1" + "0" * n + "E-5f", "float:exp"
+        yield "1" + "0" * n + ".", "float:frac"
+        yield "1." + "0" * n + "e" + "1" * min(n, 400), "float:exp"
         yield "0x0." + "0" * n + "1p+64", "hexfloat:frac"
 
 
 def long_malformed():
-    for n in (64, 65, 100):
+    for n in (64, 65, 100, 1024, 4095, 4096, 4097, 70001):
+        yield "9" * n + "e", "bad:exponent", "BAD_EXPONENT"
+        yield "9" * n + "e+", "bad:exponent", "BAD_EXPONENT"
         yield "0b" + "1" * n + "2", "bad:bin_digit", "INVALID_BIN_INT"
         yield "0" + "7" * n + "8", "bad:oct_digit", "INVALID_OCT_INT"
         yield "1." + "0" * n + ".5", "bad:dots", "MULTIPLE_DOTS"
